@@ -4,4 +4,6 @@ INVARIANT FailedAssignIsNoOp
 INVARIANT Serialisable
 PROPERTY MustReject
 PROPERTY MustAccept
+PROPERTY ConvertedAsDocumented
+PROPERTY FreshStartsEmpty
 CHECK_DEADLOCK FALSE
